@@ -33,9 +33,9 @@ type Prop struct {
 	Extra func(seed int64, tier string) ([]string, map[string]any)
 }
 
-var props = map[string]*Prop{}
+var registry = map[string]*Prop{}
 
-func register(p *Prop) { props[p.ID] = p }
+func register(p *Prop) { registry[p.ID] = p }
 
 func caseRng(seed int64, idx int) *rand.Rand {
 	return rand.New(rand.NewSource(seed*1000003 + int64(idx)*7919 + 17))
@@ -50,7 +50,7 @@ func main() {
 	only := flag.Int("index", -1, "replay: only this case index")
 	shard := flag.Int("shard", 400, "cases per coq file")
 	flag.Parse()
-	p, ok := props[*prop]
+	p, ok := registry[*prop]
 	if !ok {
 		fmt.Fprintf(os.Stderr, "unknown property %q\n", *prop)
 		os.Exit(2)
